@@ -1344,7 +1344,7 @@ func (g *Gen) runOracle(nops int) {
 	for i := 0; i < nops; i++ {
 		epoch := g.env.ok.GetCurrentEpoch(g.env.ctx)
 		switch x := r.Intn(100); {
-		case x < 45:
+		case x < 44:
 			v := g.vals[r.Intn(len(g.vals))].addr
 			if r.Intn(20) == 0 {
 				v = hex20(0xee)
@@ -1382,6 +1382,36 @@ func (g *Gen) runOracle(nops int) {
 				items = []string{"-"}
 			}
 			g.do(fmt.Sprintf("oprice %s %d %s", v, ep, strings.Join(items, ",")))
+		case x < 47 && len(g.vals) >= 3:
+			// the reporting power splits exactly in half around two values, and a validator without voting power (not
+			// bonded, or with a dust stake) reports something in between: the stored price is the mean of the two halves
+			for vi := range g.vals {
+				g.vals[vi].bonded = vi < 2
+			}
+			g.vals[0].power, g.vals[1].power = 50, 50
+			if r.Intn(2) == 0 {
+				g.vals[0].power, g.vals[1].power, g.vals[2].power, g.vals[2].bonded = 500000, 500000, 1, true
+			}
+			g.do(g.stakingLine())
+			unit := new(big.Int).Exp(big.NewInt(10), big.NewInt(15), nil)
+			lo := 100 + r.Intn(1000)
+			hi := lo + 2 + r.Intn(3000)
+			mid := lo + r.Intn(hi-lo)
+			order := r.Perm(3)
+			for _, k := range order {
+				var items []string
+				for _, n := range names {
+					val := new(big.Int).Mul(big.NewInt(int64([]int{lo, hi, mid}[k])), unit)
+					items = append(items, n+"="+val.String())
+				}
+				g.do(fmt.Sprintf("oprice %s %d %s", g.vals[k].addr, epoch, strings.Join(items, ",")))
+			}
+			g.stats["oracle:tied-halves-with-a-powerless-report-between"]++
+			g.do("oend")
+			g.do("dump oracle")
+			g.height++
+			g.time += 5
+			g.do(fmt.Sprintf("block %d %d", g.height, g.time))
 		case x < 65:
 			v := g.vals[r.Intn(len(g.vals))].addr
 			hl := holderLists[r.Intn(len(holderLists))]
@@ -1425,6 +1455,17 @@ func (g *Gen) runOracle(nops int) {
 }
 
 // ---------------------------------------------------------------- abi profile (C07)
+
+// respell writes a hex address in another spelling that go-ethereum's IsHexAddress also accepts.
+func respell(r *rand.Rand, a string) string {
+	switch r.Intn(3) {
+	case 0:
+		return strings.ToLower(a)
+	case 1:
+		return "0x" + strings.ToUpper(a[2:])
+	}
+	return a[2:]
+}
 
 func (g *Gen) randAddr() string {
 	b := make([]byte, 20)
@@ -1559,9 +1600,11 @@ func (g *Gen) runHash(nops int) {
 		case 0: // sth
 			f := []string{"sth", fmt.Sprint(n), g.randAddr(), amt.String(), g.randAddr(), acc(), fmt.Sprint(h), txh()}
 			g.do("hash " + strings.Join(f, " "))
-			k := 1 + r.Intn(8)
+			k := 1 + r.Intn(9)
 			m := append([]string{}, f...)
 			switch k {
+			case 9:
+				m[2] = respell(r, m[2]) // the same contract in another spelling: a different token id to the token table
 			case 8:
 				m[3] = "-" + m[3] // inadmissible unless Validate stops rejecting negative amounts
 			case 1:
@@ -1579,15 +1622,17 @@ func (g *Gen) runHash(nops int) {
 			case 7:
 				m[7] = txh()
 			}
-			g.pair = [2]string{"sth", []string{"", "nonce", "coin", "amount", "sender", "receiver", "height", "txhash", "amount-sign"}[k]}
+			g.pair = [2]string{"sth", []string{"", "nonce", "coin", "amount", "sender", "receiver", "height", "txhash", "amount-sign", "coin-spelling"}[k]}
 			g.do("hash " + strings.Join(m, " "))
 		case 1: // ttc
 			coin := g.randAddr()
 			f := []string{"ttc", fmt.Sprint(n), coin, amt.String(), "5", g.randAddr(), "bsc", g.randAddr(), fmt.Sprint(h), txh()}
 			g.do("hash " + strings.Join(f, " "))
-			k := 1 + r.Intn(11)
+			k := 1 + r.Intn(12)
 			m := append([]string{}, f...)
 			switch k {
+			case 12:
+				m[2] = respell(r, m[2])
 			case 10:
 				m[7] = m[7][2:] // the same recipient spelled without 0x (admissible: IsHexAddress), different effect
 			case 11:
@@ -1611,14 +1656,16 @@ func (g *Gen) runHash(nops int) {
 			case 9:
 				m[9] = txh()
 			}
-			g.pair = [2]string{"ttc", []string{"", "nonce", "coin", "amount", "fee", "sender", "rchain", "receiver", "height", "txhash", "receiver-spelling", "amount-sign"}[k]}
+			g.pair = [2]string{"ttc", []string{"", "nonce", "coin", "amount", "fee", "sender", "rchain", "receiver", "height", "txhash", "receiver-spelling", "amount-sign", "coin-spelling"}[k]}
 			g.do("hash " + strings.Join(m, " "))
 		case 2: // bex
 			f := []string{"bex", g.randAddr(), fmt.Sprint(n), fmt.Sprint(1 + r.Intn(50)), fmt.Sprint(h), txh(), "1000", g.randAddr()}
 			g.do("hash " + strings.Join(f, " "))
-			k := 1 + r.Intn(7)
+			k := 1 + r.Intn(8)
 			m := append([]string{}, f...)
 			switch k {
+			case 8:
+				m[1] = respell(r, m[1])
 			case 1:
 				m[1] = g.randAddr()
 			case 2:
@@ -1634,7 +1681,7 @@ func (g *Gen) runHash(nops int) {
 			case 7:
 				m[7] = g.randAddr()
 			}
-			g.pair = [2]string{"bex", []string{"", "coin", "nonce", "batchnonce", "height", "txhash", "feepaid", "feepayer"}[k]}
+			g.pair = [2]string{"bex", []string{"", "coin", "nonce", "batchnonce", "height", "txhash", "feepaid", "feepayer", "coin-spelling"}[k]}
 			g.do("hash " + strings.Join(m, " "))
 		case 3:
 			if r.Intn(2) == 0 { // sse
